@@ -126,6 +126,9 @@ var c13Extra = []Prog{
 	{"len([1: 1, 1: 2, 2: 3]) + get([1: 1, 1: 2], 1, 0)", "none", false, false},
 	{"[m == m, mi == mi, mo == mo, [m, m] == [m, m]]", "map", false, false},
 	{"[isset(mo, \"u\"), isset(mo, \"zz\"), get(mo, \"v\", o).id]", "struct", false, false},
+	// the user's overload of a built-in name next to the built-in ones
+	{"len(p.b) + len(l) + len(m)", "map", true, false},
+	{"[len(p.b), len(p.c), len(s)]", "struct", true, false},
 	// one Go type, two typings (interface-typed containers holding numbers or strings)
 	{"len(xs) + n", "ifaceA", false, false},
 	{"xs[0]", "ifaceA", false, false},
